@@ -23,7 +23,7 @@ def run(ctx):
     rnd = ctx.rnd
     q = ctx.quick
     path, spec = specdata.write(ctx)
-    fmt.mc_format(ctx, path, spec, 6 if q else 40, maxdepth=1 if q else 2)
+    fmt.mc_format(ctx, path, spec, 6 if q else 24, maxdepth=1 if q else 2, timeout=3000 if q else 9000)
     traces = []
     chain_kinds = {}
     n = 120 if q else 2500
